@@ -331,6 +331,8 @@ class CallMixin:
             if self.choose(v.isnone):
                 return 'None'
             return self.to_str(v.val)
+        if isinstance(v, (MDict, MList)) or (isinstance(v, tuple) and not hasattr(v, '_fields')):
+            return SStr(self.fresh_term('str(container)', smt.STR, False), self.taint_of(v))
         if isinstance(v, SRef):
             m = self.env.model_for(v.cls, '__str__')
             if m is not None:
@@ -374,7 +376,10 @@ class CallMixin:
 
     def str_percent(self, fmt, arg):
         if not isinstance(fmt, str):
-            raise Unsupported('% on symbolic template')
+            # symbolic template: only the information flow is kept
+            args_ = list(arg) if isinstance(arg, tuple) else [arg]
+            return SStr(self.fresh_term('formatted', smt.STR, False),
+                        smt.Or(self.taint_of(fmt), *[self.taint_of(a) for a in args_]))
         args = list(arg) if isinstance(arg, tuple) else [arg]
         parts, i, k = [], 0, 0
         while i < len(fmt):
@@ -507,7 +512,14 @@ class CallMixin:
         qn = '%s:%s' % (fn.__module__, fn.__qualname__)
         fr = Frame(loc, fn.__globals__, None, node, qn)
         self.env.touched.setdefault(qn, (fn.__code__.co_filename, node.lineno))
-        return self.run_body(node, fr)
+        is_target = fn is self.env.current_target
+        if is_target:
+            self.target_depth += 1
+        try:
+            return self.run_body(node, fr)
+        finally:
+            if is_target:
+                self.target_depth -= 1
 
     def call_spec(self, fn, ns, fr):
         """Call a spec function with parameters taken by name from ns."""
@@ -543,7 +555,7 @@ class CallMixin:
             if intr is not None:
                 return intr(self, *args, **kwargs)
             c = env.contracts.get(f)
-            if c is not None and f is not env.current_target:
+            if c is not None and (f is not env.current_target or self.target_depth > 0):
                 return self.call_contract(c, f, args, kwargs)
             m = env.fn_models.get(f)
             if m is not None:
